@@ -20,7 +20,11 @@ Record obs := mkObs {
   o_bals : list (list Z);                      (* accounts (actors, ESC, BLK) x denoms *)
   o_sups : list (option (Z * Z * Z * Z * Z));  (* per asset: incoming, outgoing, current, time-limited current, elapsed *)
   o_bsups : list Z;                            (* bank supply per asset denom *)
-  o_prev : Z }.                                (* previous block time *)
+  o_prev : Z;                                  (* previous block time *)
+  o_params : list aparam }.                    (* the stored asset parameters (Params query) *)
+
+#[export] Instance EqDec_aparam : EqDec aparam.
+Proof. intros x y. decide equality; try apply Z.eq_dec; apply Bool.bool_dec. Defined.
 
 Inductive cop :=
 | CCreate (idx : Z) (m : create_msg)
@@ -38,7 +42,8 @@ Record dobs := mkD {
   d_queue : option (list (Z * Z));                   (* [None]: unchanged *)
   d_bals : list (Z * Z * Z);                         (* account row, denom column, new value *)
   d_sups : list (Z * option (Z * Z * Z * Z * Z));    (* asset position, new value *)
-  d_bsups : list (Z * Z) }.
+  d_bsups : list (Z * Z);
+  d_params : option (list aparam) }.                 (* [None]: unchanged *)
 
 Record case := mkCase {
   k_params : list aparam; k_nactors : Z; k_ids : list cid; k_obs0 : obs; k_steps : list (cop * dobs) }.
@@ -65,7 +70,8 @@ Definition undiff (po : obs) (d : dobs) : obs :=
                (d_bals d) (o_bals po))
     (fold_left (fun l (e : Z * option (Z * Z * Z * Z * Z)) => replace_at (Z.to_nat (fst e)) (snd e) l) (d_sups d) (o_sups po))
     (fold_left (fun l (e : Z * Z) => replace_at (Z.to_nat (fst e)) (snd e) l) (d_bsups d) (o_bsups po))
-    (d_prev d).
+    (d_prev d)
+    (match d_params d with Some P => P | None => o_params po end).
 
 (** ** helpers *)
 Definition nthZ {A} (i : Z) (l : list A) : option A := if i <? 0 then None else nth_error l (Z.to_nat i).
@@ -107,7 +113,8 @@ Definition corr_obs (k : case) (s : state) (code : Z) (o : obs) : bool :=
   && forallb (fun e : Z * cid => existsb (fun q : Z * Z => (fst q =? fst e) && (snd q =? index_from (snd e) (k_ids k) 0)) (o_queue o)) (st_queue s)
   && eqb (o_bals o) (map (fun a => map (fun d => bal (st_bank s) a d) (denoms_of o)) (accounts k))
   && eqb (o_sups o) (map (fun p => option_map (fun a => (as_in a, as_out a, as_cur a, as_tlc a, as_el a)) (get (ap_denom p) (st_assets s))) (k_params k))
-  && eqb (o_bsups o) (map (fun p => sup_of (st_supply s) (ap_denom p)) (k_params k)).
+  && eqb (o_bsups o) (map (fun p => sup_of (st_supply s) (ap_denom p)) (k_params k))
+  && eqb (o_params o) (st_params s).
 
 (** well-formedness of a create step of the case: its table position names the model's id *)
 Definition op_wf (k : case) (c : cop) : bool :=
